@@ -8,6 +8,7 @@
 #include <unistd.h>
 
 #include <algorithm>
+#include <cstring>
 #include <cerrno>
 #include <ctime>
 
@@ -202,6 +203,9 @@ void yield(YieldKind k) {
 SchedResult run_tasks(const std::vector<std::function<void()>>& bodies, const SchedConfig& cfg) {
   SchedResult res;
   Sched s;
+  // ASan's swapcontext interceptor looks at uc_stack of the context being switched TO; for the main
+  // context that field is never written by getcontext/swapcontext, so it must not hold stack garbage.
+  memset(&s.main_ctx, 0, sizeof s.main_ctx);
   tl_sim_thread = true;
   s.cfg = &cfg;
   s.res = &res;
